@@ -323,7 +323,25 @@ def gen_tap(rng):
     return ('tap', 'tap', [a.replace('\x00', '') for a in args], b'', mode, None)
 
 
-GENS = [(gen_btcc, 2), (gen_btcdeb_cli, 4), (gen_repl, 3), (gen_tap, 2)]
+EXT_OPS = ['OP_CAT', 'OP_SUBSTR', 'OP_LEFT', 'OP_RIGHT', 'OP_INVERT', 'OP_AND', 'OP_OR', 'OP_XOR', 'OP_2MUL', 'OP_2DIV', 'OP_MUL', 'OP_DIV', 'OP_MOD', 'OP_LSHIFT', 'OP_RSHIFT']
+EXT_OPERANDS = ['0x', '0x00', '0x80', '0x0080', '0x00000080', '0x0000', '0x01', '0x81', '0xff', '0xffffff7f', '0xffffffff', '0x0000008000', '0xffffffffff7f', '0xffffffffffffff7f', '0xffffffffffffffff',
+                '0x0000000000000080', '0x00000000000000008000', '0x40', '0x3f', '0xc0', '0x7f', '0x' + 'ab' * 520, '0x' + '00' * 100, '1', '0', '-1', '63', '64', '65', '2147483647', '-2147483648']
+
+
+def gen_ext(rng):
+    """the re-enabled opcodes on awkward operands, with and without MINIMALDATA (non-canonical zeros then reach the arithmetic)"""
+    args = ['-z'] if rng.random() < 0.9 else []
+    if rng.random() < 0.6:
+        args.append('--modify-flags=' + rng.choice(['-MINIMALDATA', '-MINIMALDATA,-MINIMALIF', '-MINIMALDATA,-CLEANSTACK']))
+    n = rng.choice([1, 2, 2, 3])
+    body = ' '.join(rng.choice(EXT_OPERANDS) for _ in range(n)) + ' ' + ' '.join(rng.choice(EXT_OPS) for _ in range(rng.choice([1, 1, 2])))
+    mode = rng.choice(['ptyin', 'pipe'])
+    if mode == 'pipe':
+        return ('btcdeb', 'cli:ext', args, ('[' + body + ']\n').encode(), 'pipe', None)
+    return ('btcdeb', 'cli:ext', args + ['[' + body + ']'], b'', 'ptyin', None)
+
+
+GENS = [(gen_btcc, 2), (gen_btcdeb_cli, 4), (gen_repl, 3), (gen_tap, 2), (gen_ext, 1)]
 
 
 def line_editor_safe(stdin, mode):
